@@ -16,6 +16,8 @@ Arguments ns_done {T} n.
 Arguments ns_cur {T} n.
 Arguments ns_lcur {T} n.
 Arguments ns_rcur {T} n.
+Arguments fc_pre_loop {T} eqb L R lcur rcur k i acc.
+Arguments fc_post_loop {T} eqb L R lend rend k i acc.
 
 Lemma len_nil : forall A, len (@nil A) = 0.
 Proof. reflexivity. Qed.
